@@ -9,6 +9,22 @@ Driver for C08.
           retracts nothing. Its step has result `c` and must repeat the sets of the step before it (clause
           `maintenance`); the driver checks exactly that, removes the op and its step, and hands the rest to the
           model / Spec.runOk unchanged (so every theorem is about the same `Op` type as before).
+          Reach ops (engine paths beyond insert/insert_logical/retract; every one is DESUGARED here into the model's own `Op`s, so
+          every theorem is about the same `Op` type as before):
+            N | P | D | G      twins of `insert`: unique fact type / insert_with_template / load_deffacts_by_name / load_deffacts  ↦ insert
+            U<h> | A | Z       engine.update(h, ..) / add_rule / reset(): insert and retract nothing                         ↦ a `C`-like step
+            F<a>               TWO steps: engine.insert(trigger fact) ↦ insert; then reset() + fire_all() with the fired rule's
+                               action returning ONE ActionResult a:  r<h> Retract(h) ↦ retract h | t<h> RetractByType(type of h; the
+                               type is unique to h only for `N` facts) ↦ retract h / nothing | i InsertFact ↦ insert_explicit |
+                               l<ps> InsertLogicalFact ↦ insert_logical ps | u<h> Update(h), n None, g ActivateAgendaGroup,
+                               c CallFunction, s ScheduleRule, m (no result; the action MODIFIES fields of the F and D facts, which
+                               fire_all writes back with working_memory.update) ↦ a `C`-like step
+            Lk<ps>             insert_logical whose premise handles were first looked up with resolve_premise_keys("<type>.id=<p>")
+                               (the harness flags `!resolve` unless the lookup finds exactly the live premises)              ↦ insert_logical ps
+            K<h>               engine.update(h, kill=true) + reset() + fire_all() with GRL rules `when F.kill == true then retract($F)`
+                               (types F and D only)                                                                          ↦ retract h / nothing
+            W                  engine.reset_with_deffacts(): working memory AND truth maintenance start again (handles from 1); one
+                               deffacts fact is loaded ↦ a NEW history starts (model and oracle run it from `init`) with one insert
   drv_c08 model   : case        ↦ obs predicted by the model
   drv_c08 oracle  : case | obs  ↦ `ok <tags>` / `fail <clause>@<step>` (Spec.runOk on the observations)
 -/
@@ -29,13 +45,56 @@ def parseOp (t : String) : Option Op :=
   else if t.startsWith "R" then (t.drop 1).toString.toNat?.map .retract
   else none
 
-/-- a token of the case line: an operation of the model, or the maintenance call `C` (`none`) -/
-def parseTok (t : String) : Option (Option Op) :=
-  if t = "C" then some none else (parseOp t).map some
+/-- the fact types the harness gives to the handles a token creates, in creation order
+(`F`/`D`: the shared types of explicit / logical facts, `N`: a type of its own, `P`: template type, `T`: trigger) -/
+def kindsOfTok (t : String) : List Char :=
+  if t = "I" || t = "E" then ['F']
+  else if t.startsWith "L" then ['D']
+  else if t = "N" then ['N']
+  else if t = "P" || t = "D" || t = "G" || t = "W" then ['P']
+  else if t = "Fi" then ['T', 'F']
+  else if t.startsWith "Fl" then ['T', 'D']
+  else if t.startsWith "F" then ['T']
+  else []
 
-def parseToks (line : String) : Option (List (Option Op)) := (tokens line).mapM parseTok
+def kindOf (kinds : List Char) (h : Nat) : Char := if h = 0 then '?' else kinds.getD (h - 1) '?'
 
-def parseCase (line : String) : Option (List Op) := (parseToks line).map stripC
+/-- a token of the case line ↦ the model operations (or `none` = a step that must change nothing) it stands for -/
+def parseTok (kinds : List Char) (t : String) : Option (List (Option Op)) :=
+  if t = "C" || t = "A" || t = "Z" then some [none]
+  else if t = "N" || t = "P" || t = "D" || t = "G" || t = "W" then some [some .insert]
+  else if t.startsWith "U" then (t.drop 1).toString.toNat?.map fun _ => [none]
+  else if t.startsWith "K" then
+    (t.drop 1).toString.toNat?.map fun h =>
+      [some (.retract (if kindOf kinds h == 'F' || kindOf kinds h == 'D' then h else 0))]
+  else if t = "Fi" then some [some .insert, some .insertExplicit]
+  else if t = "Fn" || t = "Fm" || t = "Fg" || t = "Fc" || t = "Fs" then some [some .insert, none]
+  else if t.startsWith "Lk" then (parseNats? (t.drop 2).toString).map fun ps => [some (.insertLogical ps)]
+  else if t.startsWith "Fr" then (t.drop 2).toString.toNat?.map fun h => [some .insert, some (.retract h)]
+  else if t.startsWith "Ft" then
+    (t.drop 2).toString.toNat?.map fun h => [some .insert, some (.retract (if kindOf kinds h == 'N' then h else 0))]
+  else if t.startsWith "Fu" then (t.drop 2).toString.toNat?.map fun _ => [some .insert, none]
+  else if t.startsWith "Fl" then (parseNats? (t.drop 2).toString).map fun ps => [some .insert, some (.insertLogical ps)]
+  else if t.startsWith "F" then none
+  else (parseOp t).map fun op => [some op]
+
+/-- the histories of a case: `W` (reset_with_deffacts) starts a new one, of which it is the first token -/
+def splitW : List String → List (List String)
+  | [] => [[]]
+  | t :: ts =>
+    match splitW ts with
+    | seg :: segs => if t = "W" then [] :: (t :: seg) :: segs else (t :: seg) :: segs
+    | [] => [[t]]
+
+def parseSeg (toks : List String) : Option (List (Option Op)) :=
+  let kinds := (toks.map kindsOfTok).flatten
+  (toks.mapM (parseTok kinds)).map List.flatten
+
+/-- the histories of a case line (at least one; the first may be empty) -/
+def parseSegs (line : String) : Option (List (List (Option Op))) :=
+  ((splitW (tokens line)).filter fun seg => !seg.isEmpty).mapM parseSeg
+
+def univSegs (segs : List (List (Option Op))) : Nat := (segs.map fun ts => universeOf (stripC ts)).foldl max 0
 
 /-- what every step shows before anything happened: no fact, no justification -/
 def emptySets : String := "-/-/-/-/0,0,0,0"
@@ -92,14 +151,11 @@ def parseTrace (s : String) : Option (List Obs) :=
   if s = "-" then some [] else (s.splitOn ";").mapM parseObs
 
 def modelLine (line : String) : String :=
-  match parseToks line with
-  | some ts =>
-    let ops := stripC ts
-    if ts.all Option.isSome then showTrace (trace (universeOf ops) init ops)
-    else
-      let steps := (trace (universeOf ops) init ops).map showObs
-      let out := weave ts steps emptySets
-      if out.isEmpty then "-" else ";".intercalate out
+  match parseSegs line with
+  | some segs =>
+    let k := univSegs segs
+    let out := (segs.map fun ts => weave ts ((trace k init (stripC ts)).map showObs) emptySets).flatten
+    if out.isEmpty then "-" else ";".intercalate out
   | none => "bad-case"
 
 /-- which clause fails at step `i` (for the signature) -/
@@ -181,37 +237,58 @@ def stripFlags (o : String) : String × List String :=
     | [] => (st, [])
   (";".intercalate (parts.map (·.1)), (parts.map (·.2)).flatten.eraseDups)
 
+/-- one history (segment) of a case: `.ok tags` or `.error (clause, local step)` -/
+def oracleSeg (k : Nat) (ts : List (Option Op)) (steps : List String) : Except (String × Nat) (List String) :=
+  let hasC := !ts.all Option.isSome
+  -- the steps that must change nothing first: checked here and removed
+  match unweave ts steps emptySets 0 with
+  | .error i => .error ("maintenance", i)
+  | .ok steps' =>
+    let ops := stripC ts
+    match steps'.mapM parseObs with
+    | some os =>
+      match firstBad k 0 {} ops os with
+      | none => .ok (tagsOf ops os ++ (if hasC then ["maintenance_call"] else []))
+      | some i =>
+        -- index among the tokens of the segment: skip the `none` steps before the i-th operation
+        let rec pos (ts : List (Option Op)) (i : Nat) (acc : Nat) : Nat :=
+          match ts, i with
+          | [], _ => acc
+          | none :: r, i => pos r i (acc + 1)
+          | some _ :: _, 0 => acc
+          | some _ :: r, i + 1 => pos r i (acc + 1)
+        match ghostAt i {} ops os with
+        | some (g, op, o) => .error (whichClause k g op o, pos ts i 0)
+        | none => .error ("length", pos ts i 0)
+    | none => .error ("unparsable-observation", 0)
+
+def takeSegs : List (List (Option Op)) → List String → List (List (Option Op) × List String)
+  | [], _ => []
+  | ts :: r, steps => (ts, steps.take ts.length) :: takeSegs r (steps.drop ts.length)
+
 def oracleLine (line : String) : String :=
   match line.splitOn " | " with
   | [c, o] =>
     let (o, flags) := stripFlags o.trimAscii.toString
-    -- the maintenance steps first: checked here and removed
-    let hasC := (parseToks c).any fun ts => !ts.all Option.isSome
-    let chk : Except Nat String :=
-      match parseToks c with
-      | some ts =>
-        if hasC then
-          (unweave ts (if o = "-" then [] else o.splitOn ";") emptySets 0).map fun l =>
-            if l.isEmpty then "-" else ";".intercalate l
-        else .ok o
-      | none => .ok o
-    match chk with
-    | .error i => s!"fail maintenance@{i}"
-    | .ok o =>
-    match parseCase c, parseTrace o with
-    | some ops, some os =>
-      let k := universeOf ops
-      match firstBad k 0 {} ops os with
-      | none =>
-        match flags with
-        | [] => joinSp ("ok" :: tagsOf ops os ++ (if hasC then ["maintenance_call"] else []))
-        | f :: _ => s!"fail inconsistent-{f}"
-      | some i =>
-        match ghostAt i {} ops os with
-        | some (g, op, o) => s!"fail {whichClause k g op o}@{i}"
-        | none => s!"fail length@{i}"
-    | some _, none => "fail unparsable-observation"
-    | _, _ => "bad-input"
+    match parseSegs c with
+    | some segs =>
+      let k := univSegs segs
+      let steps := if o = "-" then [] else o.splitOn ";"
+      if steps.length != (segs.map List.length).foldl (· + ·) 0 then
+        (if steps.any (fun st => (st.splitOn "/").length != 6) then "fail unparsable-observation" else s!"fail length@{steps.length}")
+      else
+      let rec go (l : List (List (Option Op) × List String)) (off : Nat) (tags : List String) : String :=
+        match l with
+        | [] =>
+          match flags with
+          | [] => joinSp ("ok" :: tags.eraseDups ++ (if segs.length > 1 then ["reset_with_deffacts"] else []))
+          | f :: _ => s!"fail inconsistent-{f}"
+        | (ts, st) :: r =>
+          match oracleSeg k ts st with
+          | .ok t => go r (off + ts.length) (tags ++ t)
+          | .error (cl, i) => if cl = "unparsable-observation" then "fail unparsable-observation" else s!"fail {cl}@{off + i}"
+      go (takeSegs segs steps) 0 []
+    | none => "bad-input"
   | _ => "bad-input"
 
 def main (args : List String) : IO Unit :=
